@@ -371,6 +371,23 @@ func (f *frame) callContract(st *State, callee *ssa.Function, cc *Contract, args
 			vc.oblige(st, "lockinv."+li.Name, lsc.evalBool(li.Expr), "monitor invariant holds when the lock is released: "+li.Src, pos, true)
 		}
 	}
+	if f.isTop && f.c != nil && len(f.c.BeforeCall) > 0 {
+		// ghost snapshots of the state this callee starts in
+		bsc := f.specCtx(st, vc.oldState)
+		bsc.bound = map[string]*Term{}
+		f.bindParams(bsc)
+		for _, g := range f.c.BeforeCall {
+			if !strings.Contains(name, g.Type) {
+				continue
+			}
+			hv, _, _ := vc.ghostHV(bsc.pkg, g.Name)
+			if hv == "" {
+				unsup("before_call: %s is not a ghost variable", g.Name)
+			}
+			v := bsc.evalTerm(g.Expr)
+			vc.heapSet(st, hv, "(store "+vc.heapGet(st, hv)+" nil "+v.S+")")
+		}
+	}
 	pre := st.clone()
 	sc := &specCtx{vc: vc, st: st, old: pre, vars: map[string]Val{}, bound: map[string]*Term{}, pkg: pkgOf(callee), fn: callee}
 	bindCall(sc, callee, cc, args)
